@@ -95,6 +95,13 @@ def pass_linearity(prog, x, consts):
         succs = list(x.succs[b])
         if t["op"] == "br" and len(t["succs"]) == 2 and t["ops"][0][0] == "i":
             c = x.insts[t["ops"][0][1]]
+            if c["op"] == "icmp" and c["pred"] in ("eq", "ne") and c["ops"][1][0] == "n":
+                v = c["ops"][0]
+                while v[0] == "i" and x.insts[v[1]]["op"] in CASTS:
+                    v = x.insts[v[1]]["ops"][0]
+                if v[0] == "a" and v[1] in consts and consts[v[1]] in (0, "fn"):
+                    truth = (consts[v[1]] == 0) == (c["pred"] == "eq")
+                    succs = [t["succs"][0] if truth else t["succs"][1]]
             if c["op"] == "icmp" and c["pred"] in ("eq", "ne") and c["ops"][1][0] == "c":
                 v = c["ops"][0]
                 while v[0] == "i" and x.insts[v[1]]["op"] in CASTS | {"zext", "sext", "trunc"}:
@@ -187,6 +194,65 @@ class Algebra:
             return "arg", off
         return None
 
+    def head_loop(self, header, body):
+        """[(kind, inst, buffer)] in program order when the loop is  for (i = 0; i < tweak_size; ++i)  with a
+        straight-line body whose accesses to tracked buffers are single bytes at position i; None otherwise."""
+        f = self.f
+        t = f.term(header)
+        if t["op"] != "br" or len(t["succs"]) != 2 or t["ops"][0][0] != "i":
+            return None
+        c = f.insts[t["ops"][0][1]]
+        if c["op"] != "icmp" or c["pred"] not in ("ult", "ne", "slt"):
+            return None
+        iv = c["ops"][0]
+        while iv[0] == "i" and f.insts[iv[1]]["op"] in ("zext", "sext", "trunc"):
+            iv = f.insts[iv[1]]["ops"][0]
+        if iv[0] != "i" or f.insts[iv[1]]["op"] != "phi" or f.bb_of[iv[1]] != header:
+            return None
+        phi = f.insts[iv[1]]
+        okiv = True
+        for v, pb in zip(phi["ops"], phi["inblocks"]):
+            if pb in body:
+                bi = f.insts.get(v[1]) if v[0] == "i" else None
+                if not (bi and bi["op"] == "add" and bi["ops"][0] == ["i", phi["id"]] and bi["ops"][1][0] == "c" and int(bi["ops"][1][1]) == 1):
+                    okiv = False
+            elif not (v[0] == "c" and int(v[1]) == 0):
+                okiv = False
+        bound = self.fl.lf(c["ops"][1])
+        if not okiv or bound != self.n:
+            return None
+        # straight-line body
+        chain = []
+        b = [s for s in t["succs"] if s in body]
+        if len(b) != 1:
+            return None
+        b = b[0]
+        while b != header:
+            chain.append(b)
+            ss = f.succs[b]
+            if len(ss) != 1:
+                return None
+            b = ss[0]
+        ivatom = (0, ((("i", phi["id"]), 1),))
+        out = []
+        for bb in chain:
+            for i in f.bbmap[bb]["insts"]:
+                if i["op"] in ("load", "store"):
+                    p = i["ops"][0] if i["op"] == "load" else i["ops"][1]
+                    bf = self.buf(p)
+                    if bf is None:
+                        if i["op"] == "store":
+                            a = self.fl.ptr(p)
+                            if a is None or a[0][0][0] != "alloca":
+                                return None      # a store to something we do not track
+                        continue
+                    if i.get("size") != 1 or bf[1] != ivatom:
+                        return None
+                    out.append((i["op"], i, bf[0]))
+                elif i["op"] == "call" and not (i.get("intrinsic") or "").startswith(("llvm.dbg", "llvm.lifetime")):
+                    return None
+        return out
+
     def region_op(self, off, length):
         """which regions an access [off, off+length) covers exactly: 'both' | 'head' | 'tail' | None"""
         full = lf_const(self.tsz)
@@ -202,11 +268,16 @@ class Algebra:
         """[(path blocks, success?, null path?, total {head, tail}, field {head, tail}, pass calls)]"""
         f = self.f
         out = []
-        if f.loops():
-            self.unsupported = "set_tweak contains a loop"
-            return None
+        # byte loops  for (i = 0; i < tweak_size; ++i) { ... [i] ... }  act on the head region as a whole
+        head_loops = {}
+        for h, body in f.loops().items():
+            info = self.head_loop(h, body)
+            if info is None:
+                self.unsupported = "set_tweak contains a loop that is not a byte loop over the first tweak_size bytes"
+                return None
+            head_loops[h] = info
         xor_memo = {}
-        for path in enum_paths(f):
+        for path in enum_paths(f, limit=2000, collapse_loops=bool(head_loops)):
             env = {}
             st = {"field": {"head": frozenset([OLD]), "tail": frozenset([OLD])},
                   "arg": {"head": frozenset([ARG]), "tail": UNK}}
@@ -243,6 +314,46 @@ class Algebra:
                 return None
             for k, b in enumerate(path):
                 prev = path[k - 1] if k else None
+                if b in head_loops:
+                    # one symbolic iteration at "a position below tweak_size"
+                    for bid in list(bytes_):
+                        flush(bid)
+                    cur = {}        # buffer -> value at the current position after this iteration's stores
+                    lval = {}
+                    okl = True
+
+                    def hv(bid):
+                        if bid in cur:
+                            return cur[bid]
+                        if bid == "arg":
+                            return frozenset([ARG])
+                        r = st.get(bid)
+                        return None if r is None else r.get("head")
+
+                    def lbyte(op):
+                        if op[0] == "c":
+                            return frozenset() if int(op[1]) == 0 else None
+                        if op[0] != "i":
+                            return None
+                        if op[1] in lval:
+                            return lval[op[1]]
+                        ii = f.insts[op[1]]
+                        if ii["op"] in ("zext", "sext", "trunc") or ii["op"] in CASTS:
+                            return lbyte(ii["ops"][0])
+                        if ii["op"] == "xor":
+                            return sym(lbyte(ii["ops"][0]), lbyte(ii["ops"][1]))
+                        return None
+                    for (kind, inst, bid) in head_loops[b]:
+                        if kind == "load":
+                            lval[inst["id"]] = hv(bid)
+                        elif kind == "store":
+                            cur[bid] = lbyte(inst["ops"][0])
+                        else:
+                            okl = False
+                    for bid, v in cur.items():
+                        reg = dict(st.get(bid, {"head": UNK, "tail": UNK}))
+                        reg["head"] = v if okl else UNK
+                        st[bid] = reg
                 for i in f.bbmap[b]["insts"]:
                     o = i["op"]
                     if o == "phi" and prev is not None:
